@@ -93,6 +93,25 @@ void h_c2d(void) {
     V_CANARY("chain returns");
 }
 #endif
+#ifdef U12_RCQP
+/* DOC->CODE through the API path (copy_api_from_app + verify_settings), not only on the library-side state: with
+ * rate control on (modes 1 and 2) a documented-invalid QP bound passed by the application is rejected — the copy
+ * must hand the application's value to the validation in EVERY rate-control mode. */
+void h_rc_qp(void) {
+    SequenceControlSet *s = malloc(sizeof(*s));
+    __CPROVER_assume(s != NULL);
+    EbSvtAv1EncConfiguration cfg;
+    defaults(s, &cfg);
+    V_NONDET(uint32_t, rc); V_NONDET(uint32_t, maxq); V_NONDET(uint32_t, minq);
+    V_ASSUME(rc >= 1 && rc <= 2);
+    cfg.rate_control_mode = rc; cfg.max_qp_allowed = maxq; cfg.min_qp_allowed = minq;
+    if (rc == 2) cfg.intra_period_length = 60;
+    EbErrorType r = chain(s, &cfg);
+    V_ASSERT(r == EB_ErrorBadParameter || (maxq <= 63 && minq <= 63), "DOC->CODE through the API: max_qp_allowed / min_qp_allowed outside [0-63] are rejected in rate-control modes 1 and 2");
+    V_ASSERT(r != EB_ErrorNone || (s->static_config.max_qp_allowed == maxq && s->static_config.min_qp_allowed == minq), "an accepted configuration works from the application's QP bounds");
+    V_CANARY("rc qp chain returns");
+}
+#endif
 #ifdef U12_RC
 /* rate-control group, jointly symbolic within the documented ranges:
  * H (look_ahead_distance): "When RateControlMode is set to 1 it's best to set this parameter to be equal to the
@@ -118,7 +137,8 @@ void h_rc(void) {
 #ifdef U12_MPS
 /* manual prediction structure (documented by the library's error texts): entry count [1-32]; decode order and
  * temporal layer [0-31]; "only forward frames can be in list0" (every list0 slot >= 0); "all ref frames in list1
- * should not exceed minigop end".  Witness entry i and slot j are arbitrary. */
+ * should not exceed minigop end"; "there should be at least one frame within minigop" in list0 of every entry.
+ * Witness entry i and slot j are arbitrary. */
 void h_mps(void) {
     SequenceControlSet *s = malloc(sizeof(*s));
     __CPROVER_assume(s != NULL);
@@ -134,7 +154,11 @@ void h_mps(void) {
     int bad_list0 = c->pred_struct[i].ref_list0[j] < 0;
     int bad_order = c->pred_struct[i].decode_order > 31 || c->pred_struct[i].temporal_layer_index > 31;
     int bad_list1 = j < REF_LIST_MAX_DEPTH - 1 && ((long)(i + 1) - (long)c->pred_struct[i].ref_list1[j] > (long)c->manual_pred_struct_entry_num);
+    int none_within = 1;   /* "there should be at least one frame within minigop" in list0 of EVERY entry (witness i) */
+    for (int b = 0; b < REF_LIST_MAX_DEPTH; b++)
+        if (c->pred_struct[i].ref_list0[b] != 0 && (i + 1) - c->pred_struct[i].ref_list0[b] >= 0) none_within = 0;
     EbErrorType r = verify_settings(s);
+    V_ASSERT(!none_within || r == EB_ErrorBadParameter, "DOC->CODE manual prediction structure: an entry whose list0 has no frame within the mini-GOP is rejected, whichever entry it is");
     V_ASSERT(!bad_list0 || r == EB_ErrorBadParameter, "DOC->CODE manual prediction structure: a negative (future) frame in ANY list0 slot is rejected");
     V_ASSERT(!bad_order || r == EB_ErrorBadParameter, "DOC->CODE manual prediction structure: decode order / temporal layer above 31 is rejected");
     V_ASSERT(!bad_list1 || r == EB_ErrorBadParameter, "DOC->CODE manual prediction structure: a list1 frame beyond the mini-GOP end is rejected");
